@@ -339,7 +339,19 @@ func checkTextDescription(p *Program, r *Report) {
 				stv = ev
 			}
 		}
-		if mk == nil || sum == nil || stv == nil {
+		// the text taken directly as string(data[12 : 12+count−1])
+		direct := false
+		var dsl *SliceVal
+		if ag, ok := tp[0].(*Agg); ok {
+			for _, el := range ag.Elems {
+				if op, ok := el.(*Opaque); ok && strings.HasPrefix(op.Fn, "convert:string") && len(op.Args) == 1 {
+					if sl, ok := op.Args[0].(*SliceVal); ok && sl.Base != nil && sl.Base.Key == "data" {
+						direct, dsl = true, sl
+					}
+				}
+			}
+		}
+		if !direct && (mk == nil || sum == nil || stv == nil) {
 			continue
 		}
 		// signature condition data[0:4] == 'desc'
@@ -353,6 +365,20 @@ func checkTextDescription(p *Program, r *Report) {
 					}
 				}
 			}
+		}
+		if direct {
+			cnt := dsl.Len.Add(formInt(1))
+			if off, ok := dataBytesBE(e, cnt, "data", 4); ok && off.Equal(formInt(8)) {
+				cntOK = true
+			} else {
+				why = "the ASCII length is " + trunc(dsl.Len.Key(), 80) + "; required BE32 data[8:12] − 1 (terminator excluded)"
+			}
+			if dsl.Lo.Equal(formInt(12)) {
+				copyOK = true
+			} else {
+				why = "the ASCII text starts at data[" + trunc(dsl.Lo.Key(), 60) + "]; required data[12]"
+			}
+			continue
 		}
 		n, _ := mk.Args[0].(*Form)
 		cnt := n.Add(formInt(1))
@@ -453,16 +479,52 @@ func checkMluc(p *Program, r *Report) {
 				}
 			}
 		}
-		var sets []Event
+		// a record is visited either on an unrolled iteration j = 0, 1, 2 (trace
+		// events in order) or in the generic iteration k of the summarised loop
+		type recVisit struct {
+			idx  *Form
+			args []Val
+		}
+		var sets []recVisit
+		nTrace := 0
 		for _, ev := range o.St.events {
-			if ev.Kind == "trace" {
-				sets = append(sets, ev)
+			switch ev.Kind {
+			case "trace":
+				sets = append(sets, recVisit{formInt(int64(nTrace)), ev.Args})
+				nTrace++
+			case "loop-trace":
+				if len(ev.Args) >= 3 {
+					if k, ok := ev.Args[0].(*Form); ok {
+						sets = append(sets, recVisit{k, ev.Args[3:]})
+					}
+				}
+			case "loop-summary":
+				first, _ := ev.Args[0].(*Form)
+				limit, _ := ev.Args[1].(*Form)
+				step, _ := ev.Args[2].(*Form)
+				if first != nil && limit != nil && step != nil && first.Equal(formInt(0)) && step.Equal(formInt(1)) {
+					if off, ok := dataBytesBE(e, limit, "data", 4); ok && off.Equal(formInt(8)) {
+						cntOK = true
+					}
+				}
 			}
 		}
-		for j, sv := range sets {
+		// on a path that has established recordSize <= 12 nothing is skipped
+		// between records: the stride is the 12 bytes read (equal to recordSize
+		// for conforming input, whose record size is 12)
+		stride := recSize
+		for _, c := range o.St.conds {
+			a, okA := c.A.(*Form)
+			b, okB := c.B.(*Form)
+			if okA && okB && c.Op == "<=" && a.Equal(recSize) && b.Equal(formInt(12)) {
+				stride = formInt(12)
+			}
+		}
+		for _, sv := range sets {
 			nRec++
-			rec := formInt(16).Add(formInt(int64(j)).Mul(recSize))
-			sa := sv.Args
+			j := sv.idx.Key()
+			rec := formInt(16).Add(sv.idx.Mul(stride))
+			sa := sv.args
 			if len(sa) != 4 {
 				setOK, why = false, "setString has an unexpected signature"
 				continue
@@ -485,20 +547,20 @@ func checkMluc(p *Program, r *Report) {
 				return true
 			}
 			if !wantAt(sa[1], 0) || !wantAt(sa[2], 2) {
-				setOK, why = false, fmt.Sprintf("record %d is stored under (%s, %s); required language data[rec:rec+2], country data[rec+2:rec+4] with rec = 16 + %d·recordSize", j, trunc(valKey(sa[1]), 60), trunc(valKey(sa[2]), 60), j)
+				setOK, why = false, fmt.Sprintf("record %s is stored under (%s, %s); required language data[rec:rec+2], country data[rec+2:rec+4] with rec = 16 + %s·recordSize", j, trunc(valKey(sa[1]), 60), trunc(valKey(sa[2]), 60), j)
 			}
 			sl, _ := sa[3].(*SliceVal)
 			if sl == nil || sl.Base == nil || sl.Base.Key != "data" {
-				offOK, why = false, fmt.Sprintf("record %d: the stored text is %s, not a sub-slice of the tag data", j, trunc(valKey(sa[3]), 100))
+				offOK, why = false, fmt.Sprintf("record %s: the stored text is %s, not a sub-slice of the tag data", j, trunc(valKey(sa[3]), 100))
 				continue
 			}
 			if !sl.Lo.Equal(dataBE(rec.Add(formInt(8)))) {
 				offOK = false
-				why = fmt.Sprintf("record %d: the text starts at %s; required the record's declared string offset BE32 data[rec+8:rec+12], wherever the strings are placed", j, trunc(sl.Lo.Key(), 100))
+				why = fmt.Sprintf("record %s: the text starts at %s; required the record's declared string offset BE32 data[rec+8:rec+12], wherever the strings are placed", j, trunc(sl.Lo.Key(), 100))
 			}
 			if !sl.Len.Equal(dataBE(rec.Add(formInt(4)))) {
 				recOK = false
-				why = fmt.Sprintf("record %d: the text length is %s; required BE32 data[rec+4:rec+8]", j, trunc(sl.Len.Key(), 100))
+				why = fmt.Sprintf("record %s: the text length is %s; required BE32 data[rec+4:rec+8]", j, trunc(sl.Len.Key(), 100))
 			}
 		}
 	}
@@ -525,7 +587,49 @@ func checkMluc(p *Program, r *Report) {
 			}
 		}
 		b := dec.Params[0].Name()
-		if stv != nil && du != nil {
+		// the code units appended one per iteration instead of stored by index
+		if stv == nil && du != nil {
+			for k := range o.St.events {
+				ev := &o.St.events[k]
+				if ev.Kind != "loop-append" || len(ev.Args) < 5 {
+					continue
+				}
+				kf, _ := ev.Args[0].(*Form)
+				first, _ := ev.Args[1].(*Form)
+				limit, _ := ev.Args[2].(*Form)
+				els, _ := ev.Args[4].(Tuple)
+				init, _ := ev.Recv.(*SliceVal)
+				lat := appOf(e2, limit)
+				good := kf != nil && first != nil && first.Equal(formInt(0)) && lat != nil && lat.Fn == "idiv" && valKey(lat.Args[1]) == "2" && strings.Contains(valKey(lat.Args[0]), "len("+b+")") &&
+					init != nil && init.Len != nil && init.Len.Equal(formInt(0)) && len(els) == 1
+				if !good {
+					decWhy = "the decode loop does not append one code unit per byte pair for k in [0, len(b)/2) to an empty slice"
+					continue
+				}
+				val, _ := els[0].(*Form)
+				if val == nil {
+					continue
+				}
+				runs := e2.BVOf(val, types.Typ[types.Uint16]).Runs()
+				decWhy = "code unit k is not b[2k]<<8 | b[2k+1]"
+				if len(runs) == 2 && runs[0].Width == 8 && runs[1].Width == 8 {
+					lo, hi := e2.A.get(runs[0].A), e2.A.get(runs[1].A)
+					if lo != nil && hi != nil && lo.Fn == "index" && hi.Fn == "index" && valKey(lo.Args[0]) == b && valKey(hi.Args[0]) == b {
+						hiIdx, _ := hi.Args[1].(*Form)
+						loIdx, _ := lo.Args[1].(*Form)
+						if hiIdx.Equal(formInt(2).Mul(kf)) && loIdx.Equal(formInt(2).Mul(kf).Add(formInt(1))) {
+							dsl, _ := du.Args[0].(*SliceVal)
+							rk := valKey(o.Ret)
+							if dsl != nil && dsl.Base != nil && dsl.Base.Fn == "loop-append" && len(dsl.Base.Args) == 2 && valKey(dsl.Base.Args[0]) == valKey(ev.Recv) && strings.Contains(rk, "convert:string(") && strings.Contains(rk, "utf16.Decode") {
+								decOK = true
+							} else {
+								decWhy = "the result is " + trunc(rk, 100) + ", not string(utf16.Decode(code units)): surrogate pairs are not combined"
+							}
+						}
+					}
+				}
+			}
+		} else if stv != nil && du != nil {
 			k, _ := stv.Args[0].(*Form)
 			first, _ := stv.Args[1].(*Form)
 			limit, _ := stv.Args[2].(*Form)
